@@ -179,6 +179,11 @@ def R2_constants_validated(run):
     run.check("R2", "oracle-struct-by-name", ok, "Oracle::initialize does not build AdaptiveFeeConstants field f from parameter f", loc=fn.loc(), detail="AdaptiveFeeConstants{f: f, ..}")
     cs = calls_to(fn, ends("Oracle::initialize_adaptive_fee_constants"))
     ok = len(cs) == 1 and is_param(cs[0][2][2], "tick_spacing") and cfg.must_pass_call(fn, cs[0][0])[0]
+    if not cs:
+        # validation and store written in place: the store itself is a validated-store instance above (validate_constants on the
+        # stored values with the tick_spacing parameter); here: it happens on every successful path
+        ws = [w for w in writes.writers_of(facts, "state::oracle::Oracle", "adaptive_fee_constants") if w["fn"] is fn and w["kind"] == "assign"]
+        ok = len(ws) == 1 and not cfg.success_reach(fn, 0, cut_blocks=[ws[0]["block"]])
     run.check("R2", "oracle-validates", ok, "Oracle::initialize does not must-pass initialize_adaptive_fee_constants(constants, tick_spacing)", loc=fn.loc(), detail="initialize_adaptive_fee_constants(constants, tick_spacing)?")
     h = facts.need_fn("instructions::adaptive_fee::set_adaptive_fee_constants::handler")
     run.touch(h)
